@@ -212,5 +212,7 @@ var s2sNonceKey = []string{"s2s", "nonce"}
 
 // s2sNonceStore is used by the authorization server for replay prevention by keeping track of used nonces in the s2s flow
 func (r Wrapper) s2sNonceStore() storage.SessionStore {
-	return r.storageEngine.GetSessionDatabase().GetStore(s2sMaxPresentationValidity+s2sMaxClockSkew, s2sNonceKey...)
+	// A presentation is acceptable from (created - skew) until (expires + skew), and created may lie up to skew in the future at first use:
+	// the nonce must be remembered for the maximum validity plus twice the clock skew, otherwise it can be replayed.
+	return r.storageEngine.GetSessionDatabase().GetStore(s2sMaxPresentationValidity+2*s2sMaxClockSkew, s2sNonceKey...)
 }
